@@ -380,10 +380,29 @@ type modelAnswer struct {
 	Consistent *bool             `json:"consistent"`
 	Acyclic    *bool             `json:"acyclic"`
 	Broken     []string          `json:"broken"`
-	Ambiguous  bool              `json:"ambiguous"`
 }
 
+// keyNewGraph is the key of the defect repaired by fix: 3143716 (newGraph deleted the service's own depends_on entry);
+// it is reported again if the old behaviour comes back: a self dependency accepted next to an optional missing one.
 const keyNewGraph = "accepted-cyclic:graph.newGraph:self-dependency+optional-dependency-on-disabled-service"
+
+func selfDepWithOptionalMissing(p absProj) bool {
+	en := map[string]bool{}
+	for _, s := range p.Services {
+		en[s.Name] = true
+	}
+	for _, s := range p.Services {
+		self, opt := false, false
+		for _, d := range s.DependsOn {
+			self = self || d.Name == s.Name
+			opt = opt || (!en[d.Name] && !d.Required)
+		}
+		if self && opt {
+			return true
+		}
+	}
+	return false
+}
 
 // judgeOutcomes: every real outcome must be one the model reaches under some iteration order; the spec decides the property.
 func judgeOutcomes(what string, specOf func(modelAnswer) *bool) func(args, real, drv json.RawMessage) *core.Verdict {
@@ -406,12 +425,6 @@ func judgeOutcomes(what string, specOf func(modelAnswer) *bool) func(args, real,
 			}
 			return false
 		}
-		modelOK := false
-		for _, a := range d.Alts {
-			if core.Class(a) == "ok" {
-				modelOK = true
-			}
-		}
 		realOK, realErr := false, ""
 		for _, o := range r.Outs {
 			if core.Class(o) == "ok" {
@@ -427,8 +440,11 @@ func judgeOutcomes(what string, specOf func(modelAnswer) *bool) func(args, real,
 		// ---- the property, decided by the specification
 		if spec := specOf(d); spec != nil {
 			if realOK && !*spec {
-				if modelOK {
-					// the model (which mirrors newGraph's delete of the wrong key) predicts this acceptance
+				var pa struct {
+					Proj absProj `json:"proj"`
+				}
+				json.Unmarshal(args, &pa)
+				if len(d.Broken) <= 1 && (len(d.Broken) == 0 || d.Broken[0] == "cycle") && selfDepWithOptionalMissing(pa.Proj) {
 					return core.Fail(keyNewGraph, fmt.Sprintf("%s accepts a project whose dependency graph has a cycle (outcomes over %d runs: %s)", what, len(r.Outs), real))
 				}
 				broken := strings.Join(d.Broken, "+")
